@@ -468,7 +468,7 @@ def global_nonlocal_decl(run):
     core.explore(lambda: None, lambda p, out: go(p))
 
 
-@harness(['C05', 'C01'], 'supp.nast.extract_visitor.visit_Global[module level]')
+@harness(['C05', 'C01', 'C10'], 'supp.nast.extract_visitor.visit_Global[module level]')
 def global_at_module_level(run):
     """`global x` at module level changes nothing: x stays an ordinary module binding (visible to the reads that follow it)"""
     import supp.nast as N
